@@ -46,6 +46,11 @@ impl<R: io::Read> StreamEncryptor<R> {
             .build());
         }
 
+        // unknown AEAD algorithms have no nonce size to derive the iv from
+        if aead.tag_size().is_none() {
+            return Err(super::UnsupporedAlgorithmSnafu { alg: aead }.build());
+        }
+
         let (info, message_key, nonce) =
             aead_setup_rfc9580(sym_alg, aead, chunk_size, &salt[..], session_key);
         let chunk_size_expanded: usize = chunk_size
